@@ -25,7 +25,7 @@ Step ==
   /\ LET e == Trace[l] IN
        IF e.ev = "reset" THEN seen' = {} /\ nils' = 0 /\ UNCHANGED <<viol, cnt>>
        ELSE LET ps == Preds(e) IN
-            /\ viol' = viol \cup Failures(ps, e, l)
+            /\ viol' = Merge(viol, Failures(ps, e, l))
             /\ cnt'  = Count(cnt, ps)
             /\ seen' = IF e.ev = "emit" /\ e.c = "cand" THEN seen \cup {e.id} ELSE seen
             /\ nils' = IF e.ev = "emit" /\ e.c = "nil" THEN nils + 1 ELSE nils
